@@ -66,14 +66,14 @@ def registry():
     except ImportError:
         P = None
     reg['C03'] = dict(
-        rules=[T.rule_pb_sig, T.rule_pb_acc, T.rule_pb_out, T.rule_pb_view, T.rule_pb_ro, T.rule_pb_complete, T.rule_pb_pair, T.rule_setitem_copy],
+        rules=[T.rule_pb_sig, T.rule_pb_acc, T.rule_pb_out, T.rule_pb_view, T.rule_pb_ro, T.rule_pb_complete, T.rule_pb_pair, T.rule_setitem_copy] + ([G.rule_pb_grade('C03')] if G is not None else []),
         explanation='Static decision of the tracer<->pullback calling protocol every traced program depends on. '
                     'Decides: existence/arity/keyword/permutation agreement between each recorder site and UTPM.pb_<name> '
                     '(R-pb-sig); accumulate-never-overwrite into adjoint storage (R-pb-acc, via the E1 alias/effect analysis '
                     'with interprocedural write modes); every pullback reaches its `out` (R-pb-out); view-mirrored ops have '
                     'guaranteed-view forwards (R-pb-view); pullbacks write only `out` (R-pb-ro); no certainly-unbound local / '
                     'unresolved name / dangling cls.X in any reachable pullback code (R-pb-complete); wrapper->kernel operand '
-                    'order (R-pb-pair). NOT decided: that each pullback kernel computes the right linear map (transposes, '
+                    'order (R-pb-pair); pullback kernels are homogeneous Taylor arithmetic (C03.pb-grade, E2). NOT decided: that each pullback kernel computes the right linear map (transposes, '
                     'factors, signs) - the adjoint identity <xbar,v> = <ybar,F\'v> itself is numeric.',
         assumptions=['NumPy library summary tables of verif/effects.py (which calls return views / write out=)',
                      'receiver classes by class-hierarchy analysis on method names (no type checker available)',
@@ -160,7 +160,7 @@ def registry():
                         'projections (PL, Proj, 0.5), triangularity, orthogonality, eigenvalue ordering - i.e. the defining equations.',
             assumptions=['the weight calculus; declared summary of truncated_triple_dot (weight D, reads orders < D)'])
         reg['C12'] = dict(
-            rules=[G.rule_grade('C12')],
+            rules=[G.rule_grade('C12'), G.rule_pb_grade('C12')],
             explanation='Static decision, symbolic in the truncation degree: for every coefficient kernel (forward), every axis-0 index read or '
                         'written lies in [0, D-1] for all loop values (O1; negative indices would silently wrap to the highest coefficients), '
                         'every read is of a coefficient of weight <= the order being defined that is already available at that point (O2), no '
